@@ -424,7 +424,12 @@ func gen(g *vh.Gen) {
 			}
 		}
 		if g.Chance(0.03) {
-			b.WriteString(strings.Repeat(g.Pick("x", "\x00", "9", " "), 5000+g.Intn(70000)))
+			if g.Chance(0.2) {
+				// a long digit string: the model's ParseInt is exact bignum arithmetic, keep it short of 75 KB
+				b.WriteString("LIST " + strings.Repeat("9", 1000+g.Intn(2000)))
+			} else {
+				b.WriteString(strings.Repeat(g.Pick("x", "\x00", " ", "\xc4\xb1"), 5000+g.Intn(70000)))
+			}
 			if g.Chance(0.5) {
 				b.WriteString("\nSTAT\n")
 			}
